@@ -29,7 +29,12 @@ class TreeGen:
             n = rng.choice([127, 128, 129, 500, 4096, 5000])
             self.st("string.long")
         m = rng.random()
-        if m < 0.35:
+        if m < 0.08:
+            # only bytes that need escaping, in long runs (any batching of escape sequences has to cope with this)
+            n = rng.choice([n, 10, 21, 22, 23, 40, 64, 130])
+            b = bytes(rng.choice(b'\x00\x01\x02\x07\x08\x09\x0a\x0c\x0d\x1b\x1f"\\/') for _ in range(n))
+            self.st("string.all_escaped")
+        elif m < 0.35:
             b = bytes(rng.randrange(0x20, 0x7F) for _ in range(n))
         elif m < 0.7:
             b = bytes(rng.getrandbits(8) for _ in range(n))
@@ -147,3 +152,29 @@ class TreeGen:
             self.st("deep_spine")
             return toks, val
         return self.value(0, [rng.choice([1, 4, 12, self.budget])])
+
+
+def random_path(rng, toks):
+    """(NAV steps, token of the node reached: '[' / '{' for containers) for a uniformly chosen node of the token-list tree"""
+    pos = [0]
+    nodes = []
+
+    def node(path):
+        t = toks[pos[0]]
+        pos[0] += 1
+        nodes.append((path, t))
+        if t == "[":
+            i = 0
+            while toks[pos[0]] != "]":
+                node(path + ["i%d" % i])
+                i += 1
+            pos[0] += 1
+        elif t == "{":
+            while toks[pos[0]] != "}":
+                k = toks[pos[0]]
+                pos[0] += 1
+                node(path + ["k" + k[1:]])
+            pos[0] += 1
+
+    node([])
+    return rng.choice(nodes)
